@@ -217,3 +217,11 @@ impl Cur2 {
         true
     }
 }
+
+
+// ---- SYN-6 controls: a reader that looks behind its cursor (bad) / at and ahead of it (good)
+pub struct Rd6;
+impl Rd6 {
+    pub fn syn6_bad(txt: &[char], i: usize) -> bool { i > 0 && txt[i - 1] == ':' }
+    pub fn syn6_good(txt: &[char], i: usize) -> bool { txt[i] == ':' || txt.get(i + 1) == Some(&':') }
+}
